@@ -115,8 +115,15 @@ def main(tier):
     for i in range(0, T + 1):
         for j in range(i + 1, T + 1):
             tasks.append({'L': 1, 'i': i, 'j': j, 'slo': -SS, 'shi': SS, 'zero': True})
+    # long runs of trailing zeros: the unscaled integer crosses the one/two/three 64-bit word boundaries (2^64 ~ 10^19.3,
+    # 2^128 ~ 10^38.5) while the significant part stays short
+    for L in (1, 2) if tier == 'quick' else (1, 2, 3, 5, 8):
+        for i in (0,) if tier == 'quick' else (0, 1):
+            for j in (19, 20, 21, 38, 39, 40) if tier == 'quick' else range(15, 45):
+                for (lo, hi) in ((-j - 3, -1), (0, 6)):
+                    tasks.append({'L': L, 'i': i, 'j': j, 'slo': lo, 'shi': hi})
     rep.required_labels = {'zero', 'nonzero'}
-    rep.bounds = {'significant_digits_L': '1..%d (all integers of each length, symbolic)' % D, 'extra_trailing_zeros_i,j': '0..%d' % T, 'base scale': '-%d..%d symbolic' % (SS, SS), 'sign': 'symbolic'}
+    rep.bounds = {'significant_digits_L': '1..%d (all integers of each length, symbolic)' % D, 'extra_trailing_zeros_i,j': '0..%d, plus (i = 0, j in 19..21 and 38..40 | i in 0..1, j in 15..44) for short significant parts (word-count boundaries)' % T, 'base scale': '-%d..%d symbolic' % (SS, SS), 'sign': 'symbolic'}
     rep.assumptions = ['String::hash feeds the UTF-8 bytes followed by 0xff to the Hasher (std contract); any Hasher is a function of that byte stream',
                        'BigInt::to_str_radix renders sign and decimal digits (num-bigint contract)']
     rep.outside = ['|scale| beyond the bound (the hash materialises |scale| zeros)', 'more than D significant digits']
